@@ -6,6 +6,7 @@ import (
 	"fmt"
 	"hash/fnv"
 	"reflect"
+	"sort"
 	"strings"
 	"sync"
 	"testing"
@@ -90,9 +91,20 @@ func TestSchema(t *testing.T) {
 	if len(neProblems) > 0 {
 		violation(t, "no-encoding", map[string]any{"problems": neProblems}, "definitions and Go types do not match: %s", strings.Join(neProblems, "; "))
 	}
+	// New<Name>() / NewPtr<Name>() are documented as "a default <Name>": they must equal
+	// new(T) + Default() for every struct type of the package.
+	for _, m := range []map[string]func() (any, any){registry.News, registry.NewPtrs} {
+		for _, n := range sortedKeys(m) {
+			got, want := m[n]()
+			if !reflect.DeepEqual(got, want) {
+				violation(t, "ctor-"+n, nil, "kmsg.New%s / NewPtr%s returns %+v, new(%s)+Default() gives %+v", n, n, got, n, want)
+			}
+		}
+	}
 	if sh, _ := ev.Shard(); sh != 0 {
 		return
 	}
+	ev.ClassN("constructors_compared_with_Default", int64(len(registry.News)+len(registry.NewPtrs)))
 	types, cells := map[string]int{}, map[string]int{}
 	for _, b := range binds {
 		types[b.Kind]++
@@ -115,6 +127,15 @@ func TestSchema(t *testing.T) {
 	ev.SampleIf(func() any {
 		return map[string]any{"schema": "parsed", "structs": len(schema.Order), "enums": len(schema.Enums), "bound_types": len(binds)}
 	})
+}
+
+func sortedKeys(m map[string]func() (any, any)) []string {
+	out := make([]string, 0, len(m))
+	for k := range m {
+		out = append(out, k)
+	}
+	sort.Strings(out)
+	return out
 }
 
 // checkValue runs the whole C15 oracle on one Go value p of binding b at version v.
